@@ -50,6 +50,7 @@ type Run struct {
 	Labels  []string
 	labels  bool
 	spent   int
+	scout   bool
 	// Note is free for the body: anything it wants to report about this run.
 	Note map[string]interface{}
 }
@@ -104,6 +105,12 @@ func (r *Run) ChooseCost(costs []int, label string) int {
 	}
 	return r.choose(point{n: len(costs), kind: 3, costs: costs}, label)
 }
+
+// Scout reports that this execution only serves to discover the shape of a
+// subtree owned by another shard: once the body has made its choices down to
+// the explorer's SplitDepth it may return without doing the expensive work
+// (the execution is not reported to Visit).
+func (r *Run) Scout() bool { return r.scout }
 
 // Spent is the budget used so far in this execution.
 func (r *Run) Spent() int { return r.spent }
@@ -160,7 +167,14 @@ func (e *Explorer) Explore(body func(*Run), visit func(*Run)) {
 			e.Capped = true
 			return
 		}
-		r := &Run{prefix: prefix, labels: e.WantLabels}
+		// subtree accounting for SplitDepth sharding: a prefix no longer than
+		// SplitDepth (the initial one, or one produced by backtracking above
+		// that depth) starts a new subtree.
+		if e.Shards > 1 && e.SplitDepth > 0 && len(prefix) <= e.SplitDepth {
+			subtree++
+			mine = int(subtree%int64(e.Shards)) == e.Shard
+		}
+		r := &Run{prefix: prefix, labels: e.WantLabels, scout: !mine}
 		if e.Shards > 1 && e.SplitDepth == 0 && len(prefix) == 0 {
 			// first execution: start at this shard's first alternative, which
 			// requires knowing the first point; run with forced first choice.
@@ -174,13 +188,6 @@ func (e *Explorer) Explore(body func(*Run), visit func(*Run)) {
 		}
 		if len(r.Choices) < len(prefix) {
 			panic(Divergence{fmt.Sprintf("body consumed %d of %d prefix choices", len(r.Choices), len(prefix))})
-		}
-		// subtree accounting for SplitDepth sharding: a prefix no longer than
-		// SplitDepth (the initial one, or one produced by backtracking above
-		// that depth) starts a new subtree.
-		if e.Shards > 1 && e.SplitDepth > 0 && len(prefix) <= e.SplitDepth {
-			subtree++
-			mine = int(subtree%int64(e.Shards)) == e.Shard
 		}
 		if mine {
 			e.Executions++
